@@ -23,7 +23,7 @@ RULE = (
     "DataArrays whose trailing dims are the declared output positions; definition-time options act like call-time "
     "ones and call-time overrides; in a third of the cases the same "
     "ufunc object and option objects are then applied on a second grid with different defaults (judged with that grid's "
-    "rules); a mis-positioned input is rejected; pad_before_func bound at definition == call; dask= / map_overlap= bound at "
+    "rules); a later `axis` entry listing already bound axes in another order does not rebind them (same arrays received, or refusal); a mis-positioned input is rejected; pad_before_func bound at definition == call; dask= / map_overlap= bound at "
     "definition == call == apply on lazy input (one-axis signature, or two-axis with only the first axis padded and the second core dim in one chunk; parallelized, allowed, allowed+map_overlap on a chunked core dim), call-time dask overrides 'forbidden' and vice versa. Class "
     "= (supply mode, #inputs, #outputs, dummies per argument, which options come from which level, rules); non-trivial "
     "iff some width > 0 or several inputs/dummies."
@@ -157,7 +157,7 @@ def run_case(ctx, desc):
 
     made = {}
 
-    def invoke(arglist, g=g):
+    def invoke(arglist, g=g, axis=axis):
         if mode == "apply":
             return apply_as_grid_ufunc(body, *arglist, axis=axis, grid=g, signature=sig,
                                        boundary_width={d: tuple(w) for d, w in bw_call.items()}, **call)
@@ -207,9 +207,12 @@ def run_case(ctx, desc):
     if len(rec) != 1:
         ctx.violation("function-called-once", f"user function called {len(rec)} times for in-memory inputs")
         return
-    def judge_received(got, ctor_desc):
+    def judge_received(got, ctor_desc, core_override=None):
         for k, (x, arg, da) in enumerate(zip(got, ins, args)):
             core = [cm[bind[d]][p] for d, p in arg]
+            pdim = {d: cm[bind[d]][p] for d, p in arg}
+            if core_override and k in core_override:
+                core = core_override[k]
             other = [d for d in da.dims if d not in core]
             nc = len(arg)
             padded_axes = [d for d in eff_bw if d in [q for q, _ in arg] and max(eff_bw[d]) > 0]
@@ -219,7 +222,7 @@ def run_case(ctx, desc):
                 e = da.transpose(*other, *core).values
                 for d in order:
                     lo, hi = eff_bw[d]
-                    ax = len(other) + [q for q, _ in arg].index(d)
+                    ax = len(other) + core.index(pdim[d])
                     rule, fv = resolve.in_force(bind[d], ctor_desc, eff)
                     e = pad_axis(e, ax, lo, hi, rule, fv)
                 exp_shape = e.shape[e.ndim - nc:]
@@ -257,6 +260,32 @@ def run_case(ctx, desc):
         if why:
             ctx.violation("received-arrays", f"second grid {ctor2} after a call on {c1}: " + why)
             return
+    # dummy names are bound to real axes in order of first appearance: an `axis` entry of a *later* input that lists the
+    # same real axes in another order cannot rebind them. Today such an entry only decides the order of that input's
+    # trailing dimensions (the axis named in slot s at the position of signature slot s); which axis is padded by how
+    # much, and where the outputs lie, still follow the first binding. The call may also be refused.
+    seen_d = set()
+    for k, arg in enumerate(ins):
+        names_k = [d for d, _ in arg]
+        if k > 0 and len(names_k) == 2 and set(names_k) <= seen_d and bind[names_k[0]] != bind[names_k[1]]:
+            axis2 = list(axis)
+            axis2[k] = tuple(reversed(axis[k]))
+            ctx.judged(("later-axis-entry-reordered", mode, len(ins)), True)
+            rec.clear()
+            try:
+                invoke(args, g, axis2)
+            except Exception:
+                break
+            slot_dims = [cm[axis2[k][s_]][arg[s_][1]] for s_ in range(2)]
+            if set(slot_dims) != {cm[bind[d]][p] for d, p in arg}:
+                ctx.count("reordered_entry_answered_with_other_positions_not_judged")
+                break
+            why = judge_received(rec[0], desc["ctor"], {k: slot_dims}) if len(rec) == 1 else f"user function called {len(rec)} times"
+            if why:
+                ctx.violation("received-arrays", f"axis={axis2} (entry {k} lists the axes of already bound dummies in another order): " + why)
+                return
+            break
+        seen_d |= set(names_k)
     rs = r if isinstance(r, (tuple, list)) else (r,)
     if len(rs) != len(outs):
         ctx.violation("outputs", f"{len(rs)} results for {len(outs)} declared outputs")
